@@ -47,7 +47,7 @@ def gen(rng, tier, i):
                         'vals': [rng.randrange(8) for _ in range(rng.randint(1, 5))]})
     return {'script': script, 'm': m, 'sims': sims, 'cycles': cycles, 'vals': [rng.randrange(8) for _ in range(rng.randint(3, 23))],
             'knobs': {'c_reuse': rng.random() < 0.4, 'strip_forks': rng.random() < 0.4}, 'api': rng.choice(['explicit', 'cycle', 'cycle']), 'inj': inj,
-            'cb_style': rng.choice(['function', 'function', 'falsy_object', 'partial', 'method'])}
+            'cb_style': rng.choice(['function', 'function', 'falsy_object', 'partial', 'method']), 'call_form': rng.choice(['keyword', 'positional'])}
 
 
 def evaluated_lines(circuit, strip):
@@ -140,14 +140,17 @@ def execute(case):
             orig_s_to_c()
         sim.s_to_c = s_to_c_marked
         sim._marks = marks
+        positional = case.get('call_form') == 'positional'
         if api == 'cycle':
             if cb is None: sim.cycle(cycles)
-            else: sim.cycle(cycles, cb)
+            elif positional: sim.cycle(cycles, cb)
+            else: sim.cycle(cycles=cycles, inject_cb=cb)
             res.probe('cycle_api')
         else:
             for _ in range(cycles):
                 sim.s_to_c()
                 if cb is None: sim.c_prop()
+                elif positional: sim.c_prop(cb)
                 else: sim.c_prop(inject_cb=cb)
                 sim.c_to_s()
                 sim.s_ppo_to_ppi()
